@@ -51,9 +51,18 @@ func abortKind(errStr string) string {
 	return "merr"
 }
 
-func timedRoutes(scen string) []byte {
+func timedRoutes(scen string, T time.Duration) []byte {
 	var routes []map[string]any
-	if scen == "slowhandler" {
+	if scen == "nested" {
+		// the outer route matches on 4 bytes; its subroute starts a matching phase of its own (same timeout) that never decides
+		routes = []map[string]any{{
+			"match": []map[string]any{{"verif_m0": map[string]any{"at": 4, "v": "Y", "w": "Y"}}},
+			"handle": []map[string]any{{"handler": "verif_h", "k": "mark", "l": 1, "r": 1},
+				{"handler": "subroute", "matching_timeout": int64(T), "routes": []map[string]any{{
+					"match":  []map[string]any{{"verif_m1": map[string]any{"at": 1 << 20, "v": "Y", "w": "Y"}}},
+					"handle": []map[string]any{{"handler": "verif_h", "k": "term", "l": 2, "r": 1}}}}}},
+		}}
+	} else if scen == "slowhandler" {
 		routes = []map[string]any{{
 			"match":  []map[string]any{{"verif_m0": map[string]any{"at": 4, "v": "Y", "w": "Y"}}},
 			"handle": []map[string]any{{"handler": "verif_h", "k": "mark", "l": 1, "r": 1}, {"handler": "verif_h", "k": "eatrec", "n": 12}},
@@ -92,7 +101,7 @@ func runTimed(sc timedScen, idx int) (*timedTrace, error) {
 	defer cancel()
 	logger, obs := vh.NewLogObs(zapcore.WarnLevel)
 	srv := &layer4.Server{MatchingTimeout: caddy.Duration(time.Duration(sc.T) * time.Millisecond)}
-	if err := json.Unmarshal(timedRoutes(sc.Scen), &srv.Routes); err != nil {
+	if err := json.Unmarshal(timedRoutes(sc.Scen, time.Duration(sc.T)*time.Millisecond), &srv.Routes); err != nil {
 		return nil, err
 	}
 	if err := srv.Provision(ctx, logger); err != nil {
@@ -148,6 +157,15 @@ func runTimed(sc timedScen, idx int) (*timedTrace, error) {
 				default:
 				}
 			}
+		case "nested":
+			// the outer route is decided only by the second write, a third of the timeout in
+			write(s[:2])
+			select {
+			case <-stop:
+				return
+			case <-time.After(T / 3):
+			}
+			write(s[2:4])
 		case "slowhandler":
 			write(s[:4])
 			select {
@@ -213,7 +231,7 @@ func runTimed(sc timedScen, idx int) (*timedTrace, error) {
 		wctx, wcancel := caddy.NewContext(base)
 		defer wcancel()
 		lw := &layer4.ListenerWrapper{MatchingTimeout: caddy.Duration(T)}
-		if err := json.Unmarshal(timedRoutes(sc.Scen), &lw.Routes); err != nil {
+		if err := json.Unmarshal(timedRoutes(sc.Scen, time.Duration(sc.T)*time.Millisecond), &lw.Routes); err != nil {
 			return nil, err
 		}
 		if err := lw.Provision(wctx); err != nil {
@@ -288,7 +306,7 @@ func runTimed(sc timedScen, idx int) (*timedTrace, error) {
 		for time.Now().Before(deadline) {
 			ended := false
 			for _, e := range rec.Snapshot() {
-				if e["e"] == "Abort" || e["e"] == "HRead" && sc.Scen == "slowhandler" || e["e"] == "HErr" {
+				if e["e"] == "Abort" || e["e"] == "HRead" && sc.Scen == "slowhandler" || e["e"] == "HErr" || e["e"] == "Closed" && sc.Scen == "nested" {
 					ended = true
 				}
 			}
@@ -350,6 +368,15 @@ func init() {
 		if err != nil {
 			return err
 		}
+		// a UDP association has no socket of its own whose Close could be observed: the hook in packetConn.Close says so
+		layer4.SetVerifHook(func(point string, obj any) {
+			if point == "udp.close.closed" {
+				if r := vh.RecByAddr(layer4.VerifPacketConnAddr(obj)); r != nil {
+					r.Add(vh.Ev{"e": "Closed"})
+				}
+			}
+		})
+		defer layer4.SetVerifHook(nil)
 		// starvation watchdog: a calibrated sleep must not overshoot much
 		var maxOver time.Duration
 		wstop := make(chan struct{})
